@@ -386,14 +386,27 @@ theorem arrStep_nofit {c : Cfg} {x : CSt} {s : St} (pw : PW) (L : ListAttr) (li 
   rw [hs1.fresh hi]
 
 theorem arrStep_fit_piece {c : Cfg} {x : CSt} {s : St} (pw : PW) (L : ListAttr) (li : Option Nat) (pos : Nat)
-    {p : Piece} (hp : L.piece li = some p) (h : Sim c x s) (hi : Inv c s) (hf : s.used + p.size ≤ c.limit) :
+    {p : Piece} {j : Nat} (hp : L.piece li = some p) (hn : nextIdx li = some j) (h : Sim c x s) (hi : Inv c s)
+    (hf : s.used + p.size ≤ c.limit) :
     ∃ x1, Sim c x1 (s.write p) ∧
-      arrStep c pw (c.hdr + c.arrOpen) false L li pos x = .inl (some (nextIdx li), x1.wb.tail, x1) := by
+      arrStep c pw (c.hdr + c.arrOpen) false L li pos x = .inl (some j, x1.wb.tail, x1) := by
   have ht := h.tail hi
   obtain ⟨hr, _⟩ := readIdx_fit_piece pw L li (w := x.wb) (c := c) hp (by omega)
   refine ⟨{ x with wb := x.wb.push p.cells }, ⟨?_, h.sent⟩, ?_⟩
   · simp only [WB.push_live, h.live, St.write, List.reverse_cons, body_snoc]
-  · simp only [arrStep, hr]
+  · simp only [arrStep, hr, hn]
+
+/-- **the bound on the list length is needed**: after the successful read of element 65535 =
+`u16::MAX` the step `list_index + 1` overflows — a list of 65536 or more elements is not streamed to
+its end (a panic with overflow checks; without them the index wraps to 0 and the list starts again) -/
+theorem arrStep_overflow {c : Cfg} {x : CSt} {s : St} (pw : PW) (L : ListAttr) (pos : Nat) {e : Nat}
+    (he : L.elems[idxMax]? = some e) (h : Sim c x s) (hi : Inv c s) (hf : s.used + e ≤ c.limit) :
+    arrStep c pw (c.hdr + c.arrOpen) false L (some idxMax) pos x = .inr (.error .overflow) := by
+  have ht := h.tail hi
+  have hp : L.piece (some idxMax) = some (.listElem L.id idxMax e) := by simp [ListAttr.piece, he]
+  obtain ⟨hr, _⟩ := readIdx_fit_piece pw L (some idxMax) (w := x.wb) (c := c) hp (by
+    show x.wb.tail + e ≤ c.limit; omega)
+  simp [arrStep, hr, nextIdx]
 
 /-- the read past the end: the header is written, the handler answers `ConstraintError`, the rewind
 drops the header; the list is complete -/
@@ -422,8 +435,8 @@ theorem drop_nil_get {l : List Nat} {k : Nat} (h : l.drop k = []) : l[k]? = none
 it delivers the elements `k, k+1, …` (each read by its index, each once: the index advances only
 after a successful read, the same index is read again after a chunk was sent), and `2·(rest) + 2`
 rounds are enough -/
-theorem arrLoop_elems {c : Cfg} (hw : c.WF) (pw : PW) (L : ListAttr) : ∀ (es : List Nat) (k : Nat),
-    L.elems.drop k = es → ∀ (x : CSt) (s : St) (fuel pos : Nat), Sim c x s → Inv c s →
+theorem arrLoop_elems {c : Cfg} (hw : c.WF) (pw : PW) (L : ListAttr) (hlen : L.elems.length ≤ idxMax) :
+    ∀ (es : List Nat) (k : Nat), L.elems.drop k = es → ∀ (x : CSt) (s : St) (fuel pos : Nat), Sim c x s → Inv c s →
     2 * es.length + 2 ≤ fuel →
     RelS c (arrLoop c pw (c.hdr + c.arrOpen) false L fuel (some k) pos x) (elemsThenProbe c L k es s) := by
   intro es
@@ -471,9 +484,17 @@ theorem arrLoop_elems {c : Cfg} (hw : c.WF) (pw : PW) (L : ListAttr) : ∀ (es :
       intro x s fuel pos h hi hor hfu
       rw [elemsThenProbe_cons]
       by_cases hf : s.used + e ≤ c.limit
-      · obtain ⟨x1, s1, e1⟩ := arrStep_fit_piece pw L (some k) pos hp h hi (by rw [hsz]; exact hf)
+      · have hk : k < idxMax := by
+          have : k < L.elems.length := by
+            apply Nat.lt_of_not_le
+            intro hle
+            rw [List.getElem?_eq_none hle] at he
+            cases he
+          omega
+        have hn : nextIdx (some k) = some (k + 1) := by simp [nextIdx, hk]
+        obtain ⟨x1, s1, e1⟩ := arrStep_fit_piece pw L (some k) pos hp hn h hi (by rw [hsz]; exact hf)
         rw [put_of_fit _ _ (by rw [hsz]; exact hf)]
-        simp only [arrLoop, e1, nextIdx]
+        simp only [arrLoop, e1]
         exact ih (k + 1) hd2 x1 _ fuel _ s1 (write_ok _ hi (by rw [hsz]; exact hf)).1 hfu
       · have hfr : s.fresh c = true := by rcases hor with h1 | h1; exact absurd h1 hf; exact h1
         obtain ⟨x1, s1, e1⟩ := arrStep_nofit pw L (some k) pos h hi (by rw [hneed]; exact hf)
@@ -502,7 +523,7 @@ theorem arrLoop_elems {c : Cfg} (hw : c.WF) (pw : PW) (L : ListAttr) : ∀ (es :
 /-- **`send_array_items` is the streamed form of the size-level model**: the empty list, the elements
 `0, 1, …` by index, the end-of-list read; its fuel `2·n + 6` is never exhausted -/
 theorem sendArrayItems_sim {c : Cfg} {x : CSt} {s : St} (hw : c.WF) (pw : PW) (L : ListAttr)
-    (h : Sim c x s) (hi : Inv c s) :
+    (hlen : L.elems.length ≤ idxMax) (h : Sim c x s) (hi : Inv c s) :
     RelS c (sendArrayItems c pw (c.hdr + c.arrOpen) false L x) (streamList c L s) := by
   have hp : L.piece none = some (.listStart L.id L.empty) := rfl
   have hneed : L.need none = L.empty := rfl
@@ -513,10 +534,10 @@ theorem sendArrayItems_sim {c : Cfg} {x : CSt} {s : St} (hw : c.WF) (pw : PW) (L
     intro x s fuel pos h hi hor hfu
     unfold streamList
     by_cases hf : s.used + L.empty ≤ c.limit
-    · obtain ⟨x1, s1, e1⟩ := arrStep_fit_piece pw L none pos hp h hi (by rw [hsz]; exact hf)
+    · obtain ⟨x1, s1, e1⟩ := arrStep_fit_piece pw L none pos hp (j := 0) rfl h hi (by rw [hsz]; exact hf)
       rw [put_of_fit _ _ (by rw [hsz]; exact hf)]
-      simp only [arrLoop, e1, nextIdx]
-      exact arrLoop_elems hw pw L L.elems 0 rfl x1 _ fuel _ s1 (write_ok _ hi (by rw [hsz]; exact hf)).1 hfu
+      simp only [arrLoop, e1]
+      exact arrLoop_elems hw pw L hlen L.elems 0 rfl x1 _ fuel _ s1 (write_ok _ hi (by rw [hsz]; exact hf)).1 hfu
     · have hfr : s.fresh c = true := by rcases hor with h1 | h1; exact absurd h1 hf; exact h1
       obtain ⟨x1, s1, e1⟩ := arrStep_nofit pw L none pos h hi (by rw [hneed]; exact hf)
       rw [put_of_fresh _ _ (by rw [hsz]; exact hf) hfr]
@@ -546,7 +567,7 @@ theorem sendArrayItems_sim {c : Cfg} {x : CSt} {s : St} (hw : c.WF) (pw : PW) (L
       exact H _ _ (2 * L.elems.length + 4) _ s1.flush hi2 (.inr hfr2) (by omega)
 
 /-- **one item of the request: the cursor-level run is the size-level run** (no fuel is exhausted) -/
-theorem cputItem_sim {c : Cfg} {x : CSt} {s : St} (hw : c.WF) (pw : PW) (it : Item)
+theorem cputItem_sim {c : Cfg} {x : CSt} {s : St} (hw : c.WF) (pw : PW) (it : Item) (hlen : it.idxOk)
     (h : Sim c x s) (hi : Inv c s) :
     RelS c (cputItem c pw (c.hdr + c.arrOpen) false x it) (putItem c s it) := by
   cases it with
@@ -572,7 +593,7 @@ theorem cputItem_sim {c : Cfg} {x : CSt} {s : St} (hw : c.WF) (pw : PW) (it : It
       exact h2
     · obtain ⟨h1, h2⟩ := processRead_nofit pw (.wholeList id whole elems) h hi (by simpa [Piece.size] using hf)
       simp only [h1, Bool.false_eq_true, if_false, hf]
-      exact sendArrayItems_sim hw pw _ h2 hi
+      exact sendArrayItems_sim hw pw _ hlen h2 hi
 
 theorem relS_inv {c : Cfg} (hw : c.WF) {s : St} {it : Item} {r : Except Err CSt} (hi : Inv c s)
     (h : RelS c r (putItem c s it)) :
@@ -592,29 +613,30 @@ theorem relS_inv {c : Cfg} (hw : c.WF) {s : St} {it : Item} {r : Except Err CSt}
 cursor-level run gives the size-level run** — for every partial-write function, whatever the buffer
 held before -/
 theorem cputAttrs_sim {c : Cfg} (hw : c.WF) (pw : PW) : ∀ (as : List AttrReq) (x : CSt) (s : St),
-    Sim c x s → Inv c s →
+    IdxOk as → Sim c x s → Inv c s →
     RelS c (cputAttrs c pw (c.hdr + c.arrOpen) false as x) (putAttrs c as s) := by
   intro as
   induction as with
-  | nil => intro x s h _; exact h
+  | nil => intro x s _ h _; exact h
   | cons a as ih =>
-    intro x s h hi
+    intro x s hok h hi
+    have hok2 : IdxOk as := fun b hb => hok b (List.mem_cons_of_mem _ hb)
     simp only [cputAttrs, cputAttr, putAttrs, putAttr]
     cases hu : a.unchanged with
-    | true => simp only [if_true]; exact ih x s h hi
+    | true => simp only [if_true]; exact ih x s hok2 h hi
     | false =>
       simp only [Bool.false_eq_true, if_false]
-      rcases relS_inv hw hi (cputItem_sim hw pw a.item h hi) with ⟨x1, s1, e1, e2, h1, hi1⟩ | ⟨e, e1, e2⟩
-      · rw [e1, e2]; exact ih x1 s1 h1 hi1
+      rcases relS_inv hw hi (cputItem_sim hw pw a.item (hok a (by simp)) h hi) with ⟨x1, s1, e1, e2, h1, hi1⟩ | ⟨e, e1, e2⟩
+      · rw [e1, e2]; exact ih x1 s1 hok2 h1 hi1
       · rw [e1, e2]; rfl
 
 theorem init_tail (c : Cfg) (g : List Cell) : (CSt.init c g).wb.tail = c.hdr + c.arrOpen := by
   simp [CSt.init, WB.push, WB.tail, frame_length]
 
 /-- the cursor-level attribute section of a request against the size-level one -/
-theorem cattrs_sim {c : Cfg} (hw : c.WF) (pw : PW) (g : List Cell) (as : List AttrReq) :
+theorem cattrs_sim {c : Cfg} (hw : c.WF) (pw : PW) (g : List Cell) (as : List AttrReq) (hok : IdxOk as) :
     RelS c (cattrs c pw false g as) (putAttrs c (yielded as) (St.init c)) := by
   simp only [cattrs, init_tail]
-  exact cputAttrs_sim hw pw _ _ _ (sim_init c g) (inv_init c hw)
+  exact cputAttrs_sim hw pw _ _ _ (fun a ha => hok a (List.mem_filter.mp ha).1) (sim_init c g) (inv_init c hw)
 
 end Chunk
